@@ -14,7 +14,6 @@ import (
 	"strconv"
 	"strings"
 	"sync"
-	"sync/atomic"
 	"time"
 )
 
@@ -214,15 +213,19 @@ func (db *DB) Put(key []byte, value []byte) error {
 	logRecord.Key = key
 	logRecord.Value = append(logRecord.Value, value...)
 
+	// 追加日志记录与更新索引必须在同一临界区内完成, 保证日志中的写入顺序与索引的更新顺序一致
+	db.mu.Lock()
+	defer db.mu.Unlock()
+
 	// 将日志记录追加到当前活跃文件
-	pos, err := db.appendLogRecordWithLock(logRecord)
+	pos, err := db.appendLogRecord(logRecord)
 	if err != nil {
 		return err
 	}
 
 	// 更新索引, 并维护无效数据量
 	if oldPos := db.index.Put(key, pos); oldPos != nil {
-		atomic.AddInt64(&db.reclaimSize, int64(oldPos.Size))
+		db.reclaimSize += int64(oldPos.Size)
 	}
 
 	return nil
@@ -253,6 +256,10 @@ func (db *DB) Delete(key []byte) error {
 		return ErrKeyIsEmpty
 	}
 
+	// 存在性判断、追加墓碑值与更新索引必须在同一临界区内完成
+	db.mu.Lock()
+	defer db.mu.Unlock()
+
 	if pos := db.index.Get(key); pos == nil {
 		return nil
 	}
@@ -264,17 +271,17 @@ func (db *DB) Delete(key []byte) error {
 	logRecord.Key = key
 	logRecord.Type = datafile.LogRecordDeleted
 
-	pos, err := db.appendLogRecordWithLock(logRecord)
+	pos, err := db.appendLogRecord(logRecord)
 	if err != nil {
 		return err
 	}
 	// 墓碑值本身可视为无效数据
-	atomic.AddInt64(&db.reclaimSize, int64(pos.Size))
+	db.reclaimSize += int64(pos.Size)
 
 	// 更新索引信息
 	oldPos := db.index.Delete(key)
 	if oldPos != nil {
-		atomic.AddInt64(&db.reclaimSize, int64(oldPos.Size))
+		db.reclaimSize += int64(oldPos.Size)
 	} else {
 		return ErrIndexUpdateFailed
 	}
